@@ -14,6 +14,9 @@
 (*   MC_Parser_quick5.cfg / thorough5.cfg  two ParseString calls on one object:  *)
 (*                           all pairs of blocks with <= 3 / <= 4 lines together *)
 (*                           over the re-use alphabet                            *)
+(*   MC_Parser_quick6.cfg / thorough6.cfg  all blocks of <= 2 / <= 3 lines over  *)
+(*                           the continuation alphabet (free text ending in a    *)
+(*                           backslash, an operator, an ellipsis ...)            *)
 (*   MC_Parser_asfound.cfg   quick instance with the defect switched on          *)
 EXTENDS Parser
 
@@ -154,8 +157,31 @@ MC_FormsReuse == {
     Marker,
     F("badmax", "MaxTime", "25e-1", "none", "one") }
 
+(* continuation alphabet (quick6: <= 2 lines / thorough6: <= 3 lines): free text of the end*   *)
+(* classes behind every kind of line and on comment-only lines, and every kind of line that can *)
+(* FOLLOW it (equation, lag, initial condition, run parameter, section marker, time axis)       *)
+MC_FormsEnd == {
+    F("eq", "x", "y+1", "endbs", "one"),
+    F("lag1", "z", "x", "endbs", "tight"),
+    F("ic", "x", "3", "endbs", "wide"),
+    F("maxtime", "MaxTime", "3", "endbs", "one"),
+    F("noeq", "", "x+y", "endbs", "one"),
+    F("comment", "", "", "endbs", "one"),
+    F("eq", "y", "0.5*x+g", "endop", "one"),
+    F("errtol", "Err_Tolerance", "1e-4", "enddots", "tight"),
+    F("comment", "", "", "enddots", "one"),
+    F("eq", "q", "2*x", "none", "one"),
+    F("lag3", "w", "q", "none", "one"),
+    F("ic", "q", "2.5", "none", "one"),
+    F("maxtime", "MaxTime", "7", "none", "tight"),
+    F("usert", "t", "2*k", "none", "one"),
+    Marker,
+    Blank }
+
 (* middle alphabet (thorough2): the reduced one plus second spellings *)
 MC_FormsMiddle == MC_FormsReduced \cup MC_FormsTime \cup {
+    F("eq", "x", "y+1", "endbs", "one"),
+    F("comment", "", "", "endbs", "one"),
     F("eq", "x", "y+1", "sepeq", "one"),
     F("ic", "x", "3", "sepic", "one"),
     F("eq", "y", "0.5*x+g", "sepexo", "wide"),
